@@ -399,7 +399,12 @@ func e4Build(fx *Fixture, work string, rep *Report, builds []dynBuild) (string, 
 		r := &Result{Case: c, Resp: resp, Fx: fx, Src: fx.Src(b.Dir)}
 		tc := r.Typecheck()
 		if tc.ParseErr != nil || len(tc.Errs) > 0 {
-			return "", fmt.Errorf("generated mocks of the dynamic family do not type-check (%s): %v %v", b.Dir, tc.ParseErr, tc.Errs)
+			detail := fmt.Sprint(tc.ParseErr)
+			for _, e := range tc.Errs {
+				detail += "\n" + e.Error()
+			}
+			rep.Violate(&Violation{Diag: "precondition: generated mocks of the dynamic family do not type-check", Case: c.String(), Detail: firstLines(detail, 12), Features: []string{"e4:precondition"}})
+			return "", nil
 		}
 		src, red, hooks, err := instrumentMock(fx, tc)
 		if err != nil {
@@ -460,6 +465,11 @@ func runE4(prop, tier string) int {
 	addRtModule(fx)
 	validateFixture(fx)
 	bin, err := e4Build(fx, work, rep, builds)
+	if err == nil && bin == "" {
+		rep.Set("evaluations", 1)
+		rep.Set("distinct_nontrivial", 0)
+		return rep.Finish()
+	}
 	if err != nil {
 		fatalf("driver build failed (mocks that go/types accepted, or the harness itself): %v", err)
 	}
